@@ -34,6 +34,7 @@ RULE = (
     "foreign identifier, each unimplemented locator kind, unknown MAC / cipher / KDF names. A gate holds when the "
     "constructor / open / unlock call raises (any exception; the type is recorded, not judged); each gate has a "
     "positive control (the unmutated input opens). distinct = (gate, value)."
+    " Before every foreign input its valid twin (the positive control) is opened in the same process, so a refusal cannot depend on being the first thing parsed. Gates added for mandatory-feature flags: unknown QCOW2 incompatible bits and compression types, unknown required VHDX regions / metadata items, the stream-optimized footer magic, active-copy-only signatures."
 )
 ASSUMPTIONS = [
     "VMDK(fh) with an unknown magic is by design a flat extent; that path is excluded",
